@@ -54,10 +54,17 @@ def callee_kind(name):
     return None
 
 
+# degrees of scalar float parameters of local helpers, inferred from the arguments at their call sites (fixpoint in check_degrees)
+PARAM_DEG = {}
+CUR_FN = [None]
+
+
 def degree(v):
     """degree of a value tree: int, POLY, or NA for things that are not floating-point quantities"""
     x = strip_upd(v)
     k = x[0]
+    if k == 'param':
+        return PARAM_DEG.get((CUR_FN[0], x[1]), NA)
     if k == 'c':
         c = x[1]
         if isinstance(c, tuple) and c[0] == 'float':
@@ -241,6 +248,7 @@ def check_degrees(ctx, rep, rule='R-degree'):
     cg = CallGraph(f)
     reach = sorted(n for n in cg.reachable(entry_bodies(f)) if n in f.bodies)
     stats = {'sites': 0, 'cmp': 0, 'coord': 0, 'bodies': 0, 'skipped': []}
+    todo = []
     for name in reach:
         b = f.bodies[name]
         imp = b.j.get('impl') or {}
@@ -259,10 +267,41 @@ def check_degrees(ctx, rep, rule='R-degree'):
         except sym.CannotAnalyse as e:
             rep.ob(rule, 'analysable:%s' % short(name), False, 'cannot analyse %s: %s' % (name, e), reason='cannot-tabulate')
             continue
+        todo.append((name, bb, ps))
+    # scalar float parameters of helpers get the degree of what they are called with (consistent over all call sites)
+    PARAM_DEG.clear()
+    for _ in range(4):
+        seen_deg = {}
+        for (name, bb, ps) in todo:
+            CUR_FN[0] = name
+            for p in ps:
+                for e in p.events:
+                    if e['k'] != 'call' or e['callee'] not in f.bodies:
+                        continue
+                    cb = f.bodies[e['callee']]
+                    for i, a in enumerate(e['args']):
+                        if i + 1 >= len(cb.locals) or cb.locals[i + 1]['ty'] not in ('F', 'f64', 'f32', 'T'):
+                            continue
+                        try:
+                            d = degree(a)
+                        except DegreeError:
+                            continue
+                        if d in (NA, POLY):
+                            continue
+                        seen_deg.setdefault((e['callee'], i + 1), set()).add(d)
+        new_env = {k: next(iter(v)) for k, v in seen_deg.items() if len(v) == 1}
+        if new_env == PARAM_DEG:
+            break
+        PARAM_DEG.clear()
+        PARAM_DEG.update(new_env)
+    stats['helper parameters with inferred degree'] = len(PARAM_DEG)
+    for (name, bb, ps) in todo:
+        CUR_FN[0] = name
         rep.analysed.add(name)
         rep.paths_enumerated += len(ps)
         stats['bodies'] += 1
         check_body(rep, rule, bb, ps, stats)
+    CUR_FN[0] = None
     rep.info['R-degree'] = dict(stats)
     rep.floor(rule, 'float comparison sites', stats['cmp'], 40)
     rep.floor(rule, 'coordinate construction / store sites', stats['coord'], 12)
